@@ -24,7 +24,7 @@ import (
 // strict handshake for that distribution point is denied unless an earlier authentic version is in
 // force. For an authentic document nothing is demanded here (that is C15/C16).
 
-var c04signers = []string{"issuer", "trusted", "sibling", "stranger", "ee-key", "ca-no-crlsign", "replayed-signature", "root"}
+var c04signers = []string{"issuer", "trusted", "sibling", "stranger", "ee-key", "ca-no-crlsign", "replayed-signature", "root", "ee-key-leaf-alone"}
 var c04akis = []int{akiDefault, akiAbsent, akiIssuerSer, akiBoth, akiForeignKey, akiSerialOnly, akiURISerial}
 var c04paths = []string{"first-load", "provision-url", "refresh"}
 var c04algs = []SigAlg{ECDSASHA256, ECDSASHA1, ECDSASHA224, ECDSASHA384, ECDSASHA512, RSASHA256, RSASHA1, RSASHA224, RSASHA384, RSASHA512, RSAPSSSHA256, ED25519, MD5RSA}
@@ -41,7 +41,7 @@ func init() {
 		if tier == "thorough" {
 			n = e + c04bitsUpper + 3000 // RSA sweep + sampled refresh-path flips and larger documents
 		}
-		return Plan{Runs: n, Enumerated: e, Exhaustive: true, Level: "fault_enumeration", Rule: "enumerated: (signer in {issuer, configured trusted signer, sibling CA with the same name, stranger, the client certificate's own key, CA without cRLSign, the issuer's genuine signature of ANOTHER list the validator verified earlier in the same process, the root of the presented chain signing in the issuer's name} x AKI form in {keyId, absent, issuer+serial, both, foreign keyId, serial without issuer, URI issuer + serial} x intake path in {first CDP load, crl_urls at provision, periodic refresh}) + (13 signature algorithms x intake path) + every single-bit flip of tbsCertList / signatureAlgorithm / signatureValue of a small ECDSA CRL on the first-load path (bit indices past the end of the document are counted as skipped); further runs: the same sweep for an RSA CRL (thorough), flips on the refresh path and on larger documents; oracle: a non-authentic document is never observed in force and a strict handshake for its distribution point is denied unless an earlier authentic version is in force; non-trivial = the delivered document was not authentic"}
+		return Plan{Runs: n, Enumerated: e, Exhaustive: true, Level: "fault_enumeration", Rule: "enumerated: (signer in {issuer, configured trusted signer, sibling CA with the same name, stranger, the client certificate's own key, the same with the client certificate presented alone as a directly trusted leaf, CA without cRLSign, the issuer's genuine signature of ANOTHER list the validator verified earlier in the same process, the root of the presented chain signing in the issuer's name} x AKI form in {keyId, absent, issuer+serial, both, foreign keyId, serial without issuer, URI issuer + serial} x intake path in {first CDP load, crl_urls at provision, periodic refresh}) + (13 signature algorithms x intake path) + every single-bit flip of tbsCertList / signatureAlgorithm / signatureValue of a small ECDSA CRL on the first-load path (bit indices past the end of the document are counted as skipped); further runs: the same sweep for an RSA CRL (thorough), flips on the refresh path and on larger documents; oracle: a non-authentic document is never observed in force and a strict handshake for its distribution point is denied unless an earlier authentic version is in force; non-trivial = the delivered document was not authentic"}
 	}, Run: runC04})
 }
 
@@ -94,7 +94,8 @@ func runC04(h *Harness) {
 	trustedT := NewCA(nil, CAOpts{CN: "x", SubjectOf: issuer, RSA: map[bool]int{true: 8, false: 0}[rsaWorld]}) // configured trusted signer: same name as the issuer, own key
 	loc := w.NewLocation(LocOpts{Name: "L1", URL: "http://crl.sim/a.crl", Issuer: issuer, NVers: 2, Extra: extra, Width: 8, AKI: akiDefault})
 	// the presented certificate (its key is one of the forged signers)
-	eeCert, eeKey := issuer.IssueWithKey(EEOpts{Serial: loc.Never[0], CDP: []string{loc.URL}, RSA: map[bool]int{true: 6, false: 0}[rsaWorld]})
+	eeCert, eeKey := issuer.IssueWithKey(EEOpts{Serial: loc.Never[0], CDP: []string{loc.URL}, RSA: map[bool]int{true: 6, false: 0}[rsaWorld],
+		NoKeyUsage: signer == "ee-key-leaf-alone"}) // (a leaf without a keyUsage extension is not held back by that extension)
 	chain := w.ChainFor(eeCert, issuer)
 	if issuer != w.A {
 		chain = [][]*x509.Certificate{{eeCert, issuer.Cert, w.Root.Cert}}
@@ -185,9 +186,14 @@ func runC04(h *Harness) {
 			authentic = aki == akiDefault || aki == akiIssuerSer || aki == akiBoth
 		case "stranger":
 			doc.Signer, authentic = w.X, false
-		case "ee-key":
+		case "ee-key", "ee-key-leaf-alone":
 			ee := &CA{Name: "ee", Cert: eeCert, Key: eeKey}
 			doc.Signer, authentic = ee, false
+			if signer == "ee-key-leaf-alone" {
+				// the client certificate is itself in the trust pool and is presented alone: the verified chain holds
+				// nothing but the leaf, and nothing in it is "above the end-entity"
+				chain = [][]*x509.Certificate{{eeCert}}
+			}
 		case "replayed-signature":
 			// the genuine signature value of another list of the same issuer, which the validator has verified earlier
 			// in this process: the previous version of this location (refresh) or the list of a sibling location
@@ -238,6 +244,10 @@ func runC04(h *Harness) {
 			// a configured CRL can only be verified through configured signers: trust the issuer itself as well
 			cfg.TrustedSigFiles = append(cfg.TrustedSigFiles, h.WriteFile("trust/i.pem", CertPEM(issuer.Cert)))
 		}
+	}
+	if signer == "ee-key-leaf-alone" {
+		// a chain without any CA: the genuine lists can only be verified through a configured signer
+		cfg.TrustedSigFiles = append(cfg.TrustedSigFiles, h.WriteFile("trust/leaf-alone-issuer.pem", CertPEM(issuer.Cert)))
 	}
 	loc.Cur = 0
 	n := h.NewNode("n1", cfg)
